@@ -43,6 +43,12 @@ func shapeTable() []shapeDef {
 		{"two-distinct-cycles", []Stmt{asg(a, Arr(i0)), asg(Idx(a, i0), a), asg(o, &ObjectLit{}), asg(Mem(o, "o"), o), asg(v, Arr(a, o))}, true},
 		{"inner-cycle-not-through-root", []Stmt{asg(a, Arr(i0)), asg(b, Arr(a)), asg(Idx(a, i0), b), asg(v, obj1("k", Arr(N("1"), b)))}, true},
 		{"self-twice", []Stmt{asg(v, Arr(i0, i0)), asg(Idx(v, i0), v), asg(Idx(v, N("1")), v)}, true},
+		{"2cycle-both-members-listed", []Stmt{asg(x, &ObjectLit{}), asg(a, &ObjectLit{}), asg(Mem(x, "a"), a), asg(Mem(a, "x"), x), asg(v, Arr(x, a))}, true},
+		{"2cycle-both-members-listed-other-order", []Stmt{asg(x, &ObjectLit{}), asg(a, &ObjectLit{}), asg(Mem(x, "a"), a), asg(Mem(a, "x"), x), asg(v, Arr(a, x, a))}, true},
+		{"3cycle-all-members-listed", []Stmt{asg(a, Arr(i0)), asg(b, Arr(a)), asg(c, Arr(b)), asg(Idx(a, i0), c), asg(v, Arr(a, b, c))}, true},
+		{"2cycle-members-at-different-depths", []Stmt{asg(x, &ObjectLit{}), asg(a, Arr(i0)), asg(Mem(x, "a"), a), asg(Idx(a, i0), x), asg(v, Arr(x, Arr(a), obj1("k", x), a))}, true},
+		{"2cycle-members-as-object-values", []Stmt{asg(x, &ObjectLit{}), asg(a, &ObjectLit{}), asg(Mem(x, "a"), a), asg(Mem(a, "x"), x), asg(v, &ObjectLit{Keys: []string{"p", "q", "r"}, Quoted: []bool{false, false, false}, Vals: []Expr{x, a, x}})}, true},
+		{"mixed-3cycle-entered-at-every-member", []Stmt{asg(a, Arr(i0)), asg(o, obj1("a", a)), asg(b, Arr(o)), asg(Idx(a, i0), b), asg(v, Arr(o, b, a, o))}, true},
 		{"shared-array-twice", []Stmt{asg(x, Arr(N("1"))), asg(v, Arr(x, x))}, false},
 		{"shared-object-twice", []Stmt{asg(x, obj1("k", N("1"))), asg(v, &ObjectLit{Keys: []string{"p", "q"}, Quoted: []bool{false, false}, Vals: []Expr{x, x}})}, false},
 		{"diamond", []Stmt{asg(x, Arr(N("9"))), asg(p, obj1("x", x)), asg(q, Arr(x)), asg(v, Arr(p, q))}, false},
@@ -208,7 +214,7 @@ func c17Values(c *Case) {
 	}
 	// program: a rule without a body, a bare print, print with several arguments
 	var p *Program
-	form := c.Rng.IntN(4)
+	form := []int{0, 0, 1, 1, 2, 2, 3, 4, 5, 6}[c.Rng.IntN(10)]
 	switch form {
 	case 0:
 		p = &Program{Items: []any{&Rule{Kind: "pattern", Pattern: &BoolLit{V: true}}}} // body-less rule prints $
@@ -216,8 +222,14 @@ func c17Values(c *Case) {
 		p = &Program{Items: []any{&Rule{Kind: "pattern", Body: Blk(Pr())}}}
 	case 2:
 		p = &Program{Items: []any{&Rule{Kind: "pattern", Body: Blk(Pr(V("$")))}}}
-	default:
+	case 3:
 		p = &Program{Items: []any{&Rule{Kind: "pattern", Body: Blk(Pr(V("$index"), V("$"), S("sep"), Arr(V("$")), N("1")))}}}
+	case 4:
+		p = &Program{Items: []any{&Rule{Kind: "pattern", Body: Blk(Pr(V("$"), V("$index"), V("$")))}}}
+	case 5:
+		p = &Program{Items: []any{&Rule{Kind: "pattern", Body: Blk(Pr(S(""), V("$"), S(""), S(""), V("$index"), S("")))}}}
+	default:
+		p = &Program{Items: []any{&Rule{Kind: "pattern", Body: Blk(Pr(V("$"), V("$"), Arr(V("$"), V("$"))), Pr(S(""), S("")), Pr(S(" ")), Pr(S("")))}}}
 	}
 	data := jsonBytes(vals)
 	files := []InFile{{Name: "in.json", Data: data}}
@@ -298,7 +310,7 @@ func c17Cases(tier string) int {
 func init() {
 	register(&Prop{
 		ID: "C17", Level: "exploration",
-		Rule:     "enumerated: 22 shapes built by programs (cycles of length 1-4 through arrays / objects / mixtures, cycles below acyclic and shared prefixes, two cycles, and 7 shared-but-acyclic shapes that must be printed in full), each printed by print, by a two-argument print and by printf %v; sampled: documents of 3-8 values (doubles from every class incl. random bit patterns, powers of 2 and 10, 2^53+-k, subnormals, +-0; strings; empty containers; nesting to depth 30, width to 50) printed by a body-less rule, bare print, print $ and a 5-argument print, compared with the reference rendering; laws on the output alone: no exponent, ParseFloat gives back the identical bits, container renderings whose strings need no escaping parse as JSON equal to the value. Non-trivial = number needing > 17 characters or |x| >= 1e21 or < 1e-6, container of depth >= 3, any shape.",
+		Rule:     "enumerated: 28 shapes built by programs (cycles of length 1-4 through arrays / objects / mixtures, cycles below acyclic and shared prefixes, two cycles, cycles of length 2-3 whose members are each reachable from the printed value by their own route, and 7 shared-but-acyclic shapes that must be printed in full), each printed by print, by a two-argument print and by printf %v; sampled: documents of 3-8 values (doubles from every class incl. random bit patterns, powers of 2 and 10, 2^53+-k, subnormals, +-0; strings; empty containers; nesting to depth 30, width to 50) printed by a body-less rule, bare print, print $, and prints of 3-6 arguments with the value first / in the middle / between empty strings, compared with the reference rendering; laws on the output alone: no exponent, ParseFloat gives back the identical bits, container renderings whose strings need no escaping parse as JSON equal to the value. Non-trivial = number needing > 17 characters or |x| >= 1e21 or < 1e-6, container of depth >= 3, any shape.",
 		NumCases: c17Cases,
 		Run: func(c *Case) {
 			switch {
@@ -311,7 +323,7 @@ func init() {
 			}
 		},
 		MinConclusive: func(tier string) int { return 5000 },
-		Exhaustive:    func(tier string) string { return "table of 22 cyclic / shared shapes" },
+		Exhaustive:    func(tier string) string { return "table of 28 cyclic / shared shapes" },
 		Assumptions:   []string{"rendering rules of DESIGN.md section 3.11; object key order is not compared", "strconv.ParseFloat is the arbiter of 'reads back as the identical double'"},
 	})
 }
